@@ -207,34 +207,146 @@ pub unsafe extern "C" fn fstat64(fd: c_int, buf: *mut libc::stat64) -> c_int {
     ret(fsim::hook_read_side(IoOp::Stat, fd, None, true, real)) as c_int
 }
 
-// ---- calls that must never touch a store file (C14): executed, but recorded as breaches ----
+// ---- positional and vectored writes: ordinary writes for the shadow file system. A positional
+// write is checked like any write of a non-append descriptor (it must land at the end of file);
+// a vectored write is one write of the concatenated buffers (short writes and faults apply). ----
+
+unsafe fn do_pwrite(fd: c_int, buf: *const c_void, count: size_t, off: off_t) -> ssize_t {
+    let real = || raw(libc::syscall(libc::SYS_pwrite64, fd, buf, count, off));
+    if !interesting() || fd < 3 {
+        return ret(real()) as ssize_t;
+    }
+    let data = std::slice::from_raw_parts(buf as *const u8, count);
+    let r = fsim::hook_write(fd, data, |b| raw(libc::syscall(libc::SYS_pwrite64, fd, b.as_ptr(), b.len(), off)), || off as i64);
+    ret(r) as ssize_t
+}
 
 #[no_mangle]
 pub unsafe extern "C" fn pwrite(fd: c_int, buf: *const c_void, count: size_t, off: off_t) -> ssize_t {
-    let real = || raw(libc::syscall(libc::SYS_pwrite64, fd, buf, count, off));
-    if !interesting() {
-        return ret(real()) as ssize_t;
-    }
-    ret(fsim::hook_forbidden("pwrite", fd, None, real)) as ssize_t
+    do_pwrite(fd, buf, count, off)
 }
 
 #[no_mangle]
 pub unsafe extern "C" fn pwrite64(fd: c_int, buf: *const c_void, count: size_t, off: off_t) -> ssize_t {
-    let real = || raw(libc::syscall(libc::SYS_pwrite64, fd, buf, count, off));
-    if !interesting() {
-        return ret(real()) as ssize_t;
+    do_pwrite(fd, buf, count, off)
+}
+
+unsafe fn gather(iov: *const libc::iovec, n: c_int) -> Vec<u8> {
+    let mut v = Vec::new();
+    for i in 0..n.max(0) as usize {
+        let e = &*iov.add(i);
+        if e.iov_len > 0 && !e.iov_base.is_null() {
+            v.extend_from_slice(std::slice::from_raw_parts(e.iov_base as *const u8, e.iov_len));
+        }
     }
-    ret(fsim::hook_forbidden("pwrite", fd, None, real)) as ssize_t
+    v
 }
 
 #[no_mangle]
 pub unsafe extern "C" fn writev(fd: c_int, iov: *const libc::iovec, n: c_int) -> ssize_t {
-    let real = || raw(libc::syscall(libc::SYS_writev, fd, iov, n));
+    if !interesting() || fd < 3 || !fsim::is_store_fd(fd) {
+        return ret(raw(libc::syscall(libc::SYS_writev, fd, iov, n))) as ssize_t;
+    }
+    let data = gather(iov, n);
+    let r = fsim::hook_write(
+        fd,
+        &data,
+        |b| raw(libc::syscall(libc::SYS_write, fd, b.as_ptr(), b.len())),
+        || raw(libc::syscall(libc::SYS_lseek, fd, 0 as off_t, libc::SEEK_CUR)),
+    );
+    ret(r) as ssize_t
+}
+
+unsafe fn do_pwritev(fd: c_int, iov: *const libc::iovec, n: c_int, off: off_t) -> ssize_t {
+    if !interesting() || fd < 3 || !fsim::is_store_fd(fd) {
+        return ret(raw(libc::syscall(libc::SYS_pwritev, fd, iov, n, off, 0))) as ssize_t;
+    }
+    let data = gather(iov, n);
+    let r = fsim::hook_write(fd, &data, |b| raw(libc::syscall(libc::SYS_pwrite64, fd, b.as_ptr(), b.len(), off)), || off as i64);
+    ret(r) as ssize_t
+}
+
+#[no_mangle]
+pub unsafe extern "C" fn pwritev(fd: c_int, iov: *const libc::iovec, n: c_int, off: off_t) -> ssize_t {
+    do_pwritev(fd, iov, n, off)
+}
+
+#[no_mangle]
+pub unsafe extern "C" fn pwritev64(fd: c_int, iov: *const libc::iovec, n: c_int, off: off_t) -> ssize_t {
+    do_pwritev(fd, iov, n, off)
+}
+
+// ---- in-kernel copies would move bytes into a store file behind the shadow file system's back:
+// on a store file they report "not supported" (a result the kernel may give on any file
+// system), so that callers such as std::io::copy fall back to read and write. ----
+
+#[no_mangle]
+pub unsafe extern "C" fn copy_file_range(fd_in: c_int, off_in: *mut libc::off64_t, fd_out: c_int, off_out: *mut libc::off64_t, len: size_t, flags: c_uint) -> ssize_t {
+    if interesting() && (fsim::is_store_fd(fd_in) || fsim::is_store_fd(fd_out)) {
+        set_errno(libc::ENOSYS);
+        return -1;
+    }
+    ret(raw(libc::syscall(libc::SYS_copy_file_range, fd_in, off_in, fd_out, off_out, len, flags))) as ssize_t
+}
+
+unsafe fn do_sendfile(out_fd: c_int, in_fd: c_int, off: *mut off_t, count: size_t) -> ssize_t {
+    if interesting() && (fsim::is_store_fd(in_fd) || fsim::is_store_fd(out_fd)) {
+        set_errno(libc::EINVAL);
+        return -1;
+    }
+    ret(raw(libc::syscall(libc::SYS_sendfile, out_fd, in_fd, off, count))) as ssize_t
+}
+
+#[no_mangle]
+pub unsafe extern "C" fn sendfile(out_fd: c_int, in_fd: c_int, off: *mut off_t, count: size_t) -> ssize_t {
+    do_sendfile(out_fd, in_fd, off, count)
+}
+
+#[no_mangle]
+pub unsafe extern "C" fn sendfile64(out_fd: c_int, in_fd: c_int, off: *mut off_t, count: size_t) -> ssize_t {
+    do_sendfile(out_fd, in_fd, off, count)
+}
+
+#[no_mangle]
+pub unsafe extern "C" fn splice(fd_in: c_int, off_in: *mut libc::loff_t, fd_out: c_int, off_out: *mut libc::loff_t, len: size_t, flags: c_uint) -> ssize_t {
+    if interesting() && (fsim::is_store_fd(fd_in) || fsim::is_store_fd(fd_out)) {
+        set_errno(libc::EINVAL);
+        return -1;
+    }
+    ret(raw(libc::syscall(libc::SYS_splice, fd_in, off_in, fd_out, off_out, len, flags))) as ssize_t
+}
+
+// ---- positional and vectored reads of store files: read-side calls (scheduling point, log,
+// read-side fault point) ----
+
+unsafe fn do_pread(fd: c_int, buf: *mut c_void, count: size_t, off: off_t) -> ssize_t {
+    let real = || raw(libc::syscall(libc::SYS_pread64, fd, buf, count, off));
     if !interesting() || fd < 3 {
         return ret(real()) as ssize_t;
     }
-    ret(fsim::hook_forbidden("writev", fd, None, real)) as ssize_t
+    ret(fsim::hook_read_side(IoOp::Read, fd, None, true, real)) as ssize_t
 }
+
+#[no_mangle]
+pub unsafe extern "C" fn pread(fd: c_int, buf: *mut c_void, count: size_t, off: off_t) -> ssize_t {
+    do_pread(fd, buf, count, off)
+}
+
+#[no_mangle]
+pub unsafe extern "C" fn pread64(fd: c_int, buf: *mut c_void, count: size_t, off: off_t) -> ssize_t {
+    do_pread(fd, buf, count, off)
+}
+
+#[no_mangle]
+pub unsafe extern "C" fn readv(fd: c_int, iov: *const libc::iovec, n: c_int) -> ssize_t {
+    let real = || raw(libc::syscall(libc::SYS_readv, fd, iov, n));
+    if !interesting() || fd < 3 {
+        return ret(real()) as ssize_t;
+    }
+    ret(fsim::hook_read_side(IoOp::Read, fd, None, true, real)) as ssize_t
+}
+
+// ---- calls that must never touch a store file (C14): executed, but recorded as breaches ----
 
 #[no_mangle]
 pub unsafe extern "C" fn ftruncate(fd: c_int, len: off_t) -> c_int {
